@@ -1,8 +1,8 @@
 #!/bin/sh
-# Warm the Go build cache for the harness packages (offline).
-set -e
-cd "$(dirname "$0")/harness"
+# Warm the Go build cache for the harness packages (offline). Never fails the
+# setup for a build problem: every check rebuilds what it needs itself.
+cd "$(dirname "$0")/harness" || exit 0
 export GOFLAGS=-mod=mod GOPROXY=off GOSUMDB=off GOTOOLCHAIN=local
-go build -tags verif ./engine
-go test -c -tags verif -o /dev/null ./props
+go build -tags verif ./engine ./gen 2>&1 | tail -5
+for p in props e3; do go test -c -vet=off -tags verif -o /dev/null ./$p 2>&1 | tail -5; done
 exit 0
